@@ -387,8 +387,9 @@ fn rule_strings(r: &CbRule) -> Vec<&String> {
 fn has(m: NetworkFilterMask, f: NetworkFilterMask) -> bool {
     m.contains(f)
 }
-/// Known-finding class: the rule has lost its scheme information (`|ws://$~websocket`).
-fn lost_scheme_class(f: &NetworkFilter) -> bool {
+/// Input class of the finding fixed by 26d3d76 (`|ws://$~websocket`): the rule has lost all three
+/// scheme bits. Only used for generator statistics now; a panic on it is an ordinary violation.
+fn lost_scheme_shape(f: &NetworkFilter) -> bool {
     let needs = match (&f.filter, &f.hostname) {
         (FilterPart::Simple(_), None) => !has(f.mask, NetworkFilterMask::IS_LEFT_ANCHOR),
         (FilterPart::Empty, None) => true,
@@ -399,8 +400,9 @@ fn lost_scheme_class(f: &NetworkFilter) -> bool {
         && !has(f.mask, NetworkFilterMask::FROM_HTTPS)
         && !has(f.mask, NetworkFilterMask::FROM_WEBSOCKET)
 }
-/// Known-finding class: the pattern is nothing but a trailing separator, no anchors, no hostname.
-fn empty_filter_class(f: &NetworkFilter) -> bool {
+/// Input class of the other finding fixed by 26d3d76 (`*^`): the pattern is nothing but a trailing
+/// separator, no anchors, no hostname. Statistics only; an empty url-filter is a violation.
+fn separator_only_shape(f: &NetworkFilter) -> bool {
     match (&f.filter, &f.hostname) {
         (FilterPart::Simple(p), None) => {
             p == "^"
@@ -483,10 +485,9 @@ fn cb_regex(r: &CbRule) -> Result<regex::Regex, regex::Error> {
 /// The oracle on one list. Returns (class, what) for every failure.
 fn oracle_list(lines: &[String], parsed: &[&Parsed], res: &IntoResult, singles: &mut HashMap<String, Option<bool>>) -> Vec<(Option<&'static str>, String)> {
     let mut fails = vec![];
-    let any_lost = parsed.iter().any(|p| p.net.as_ref().map_or(false, lost_scheme_class));
     let (rules, used) = match res {
         Err(p) => {
-            fails.push((if any_lost { Some("C20_scheme_bits_lost_unreachable") } else { None }, format!("into_content_blocking panicked: {}", p)));
+            fails.push((None, format!("into_content_blocking panicked: {}", p)));
             return fails;
         }
         Ok(Err(())) => {
@@ -495,7 +496,6 @@ fn oracle_list(lines: &[String], parsed: &[&Parsed], res: &IntoResult, singles: 
         }
         Ok(Ok(x)) => x,
     };
-    let any_empty = parsed.iter().any(|p| p.net.as_ref().map_or(false, empty_filter_class));
     let mut seen_ignore = false;
     for (i, r) in rules.iter().enumerate() {
         for s in rule_strings(r) {
@@ -514,8 +514,7 @@ fn oracle_list(lines: &[String], parsed: &[&Parsed], res: &IntoResult, singles: 
         }
         let f = &r.trigger.url_filter;
         if !safari_ok(f) {
-            let known = f.is_empty() && any_empty;
-            fails.push((if known { Some("C20_empty_url_filter") } else { None }, format!("url-filter {:?} of rule {} is outside the Safari regex subset", f, i)));
+            fails.push((None, format!("url-filter {:?} of rule {} is outside the Safari regex subset", f, i)));
         } else if let Err(e) = cb_regex(r) {
             fails.push((None, format!("url-filter {:?} does not compile: {}", f, e)));
         }
@@ -737,6 +736,24 @@ fn main() {
             // parser invariants the theorems assume (checked on every parsed rule)
             if let Some(f) = &p.net {
                 sm.oracle_evaluations += 1;
+                // the two findings fixed by 26d3d76 are ordinary inputs: a regression is a violation
+                if lost_scheme_shape(f) {
+                    cs.stat("shape_all_scheme_bits_lost");
+                    if !matches!(conv, Conv::Err(e) if e.starts_with("NoSupportedNetworkOptions")) {
+                        sm.failure(None, &format!("rule {:?} has lost every scheme bit: expected the error NoSupportedNetworkOptions, got {}", p.line, conv_json(conv)), json!({"lines": [p.line]}));
+                    }
+                }
+                if separator_only_shape(f) {
+                    cs.stat("shape_separator_only_pattern");
+                }
+                if let Conv::Panic(m) = conv {
+                    sm.failure(None, &format!("conversion of {:?} panicked: {}", p.line, m), json!({"lines": [p.line]}));
+                }
+                if let Conv::Rules(v) = conv {
+                    if v.iter().any(|r| r.trigger.url_filter.is_empty()) {
+                        sm.failure(None, &format!("rule {:?} is exported with an empty url-filter", p.line), json!({"lines": [p.line]}));
+                    }
+                }
                 if let Some(h) = &f.hostname {
                     if h.contains('*') || h.contains('/') || h.contains('^') || !h.is_ascii() {
                         sm.failure(None, &format!("parser invariant: hostname {:?} contains a wildcard/separator/non-ASCII", h), json!({"lines": [p.line]}));
